@@ -226,10 +226,52 @@ class State:
                     lo = f.c if lo is None else max(lo, f.c)
         return lo if lo is not None and lo == hi else None
 
+    def pinned(self):
+        """{term: constant} for every term the state pins to one value, directly or through facts whose other terms are pinned"""
+        consts = {}
+        for _round in range(3):
+            lo, hi = {}, {}
+            for f in self.facts:
+                free = [v for v in f.t if v not in consts]
+                if len(free) != 1:
+                    continue
+                v = free[0]
+                k = f.t[v]
+                rest = f.c + sum(a * consts[x] for x, a in f.t.items() if x != v)
+                # k*v + rest <= 0
+                if k > 0:
+                    b = -rest / k
+                    hi[v] = b if v not in hi else min(hi[v], b)
+                else:
+                    b = -rest / k
+                    lo[v] = b if v not in lo else max(lo[v], b)
+            new = {v: lo[v] for v in lo if v in hi and lo[v] == hi[v] and lo[v] == int(lo[v])}
+            if not new:
+                break
+            for v, c in new.items():
+                consts[v] = int(c)
+        return consts
+
     def join(self, other):
         if self._keys == other._keys:
             return self.copy()
         res = State()
+        # terms pinned to different constants on the two sides: a fact that mentions one of them has, on its own side, an
+        # equivalent form without it; that form may hold on the other side too (x + t <= k with t = 16 here, t = 8 there)
+        pa, pb = self.pinned(), other.pinned()
+        diff = [v for v in pa if v in pb and pa[v] != pb[v]]
+        if diff and len(diff) <= 6:
+            for (own, oth, pc) in ((self, other, pa), (other, self, pb)):
+                for f in own.facts:
+                    vs = [v for v in diff if v in f.t]
+                    if not vs or len(f.t) == 1:
+                        continue
+                    g = f
+                    for v in vs:
+                        g = g.subst(v, Lin(pc[v]))
+                    g = _norm(g)
+                    if not g.is_const() and oth.entails(g):
+                        res.add(g)
         for f in self.facts:
             if f.key() in other._keys or other.entails(f):
                 res.add(f)
@@ -469,6 +511,16 @@ class Analysis:
         finally:
             self.buffers = saved
         if d is None:
+            # no equality pointer = buffer + offset (lost at a join of paths that advanced the cursor differently): the pointer
+            # still belongs to a buffer it is entailed not to lie below, and the upper end is an inequality like any other
+            l = self.lin(ptr_expr, st)
+            if l is None:
+                return False
+            for buf, cap in caps.items():
+                if buf not in l.t and st.entails(Lin.term(buf) - l):
+                    self.oblige(ev, '%s:within-valid-bytes' % what, l + width - Lin.term(buf) - cap, st,
+                                '%s: %r + %r <= %s + %r (valid bytes of %s) is not entailed' % (what, l, width, buf, cap, buf))
+                    return True
             return False
         buf, off = d
         cap = caps[buf]
@@ -681,6 +733,13 @@ class Analysis:
                 if ti.get('kind') == 'int' and ti.get('signed') is False and ti.get('bits') == 32:
                     v = self.lin(n, st)
                     if v is None or not st.entails(v - Lin(2 ** 32 - 1)):
+                        return True
+            if n.get('k') == 'bin' and n.get('op') == '-':
+                # unsigned a - b wraps when b > a: `left - cursor < need` then says nothing about cursor + need
+                ti = self.prog.type_info(n.get('ty', ''))
+                if ti.get('kind') == 'int' and ti.get('signed') is False and ti.get('bits', 0) >= 32:
+                    a, b = self.lin(n['l'], st), self.lin(n['r'], st)
+                    if a is None or b is None or not st.entails(b - a):
                         return True
         return False
 
